@@ -18,7 +18,7 @@ def _run_chunk(jobs):
         p = j["prog"]
         sql = render_col.render(p, **j.get("opts", {}))
         md = render_col.metadata_of(p)
-        base = col_drv.flow(sql, "ansi", metadata=None)            # no provider at all
+        base = col_drv.flow(sql, "ansi", metadata=None, lca=p.get("lca", False))            # no provider at all
         prov = None
         if j["provider"] == "sqlalchemy" and md:
             # the same knowledge in an in-memory sqlite database (schemas attached as databases)
@@ -33,11 +33,11 @@ def _run_chunk(jobs):
                     for t, cols in md.items():
                         conn.execute(text("create table %s (%s)" % (t, ", ".join(c + " int" for c in cols))))
                     conn.commit()
-                    o = col_drv.flow(sql, "ansi", provider=_Keep(prov, conn))
+                    o = col_drv.flow(sql, "ansi", provider=_Keep(prov, conn), lca=p.get("lca", False))
             except Exception as e:  # noqa
                 o = {"flow": [], "reads": [], "target": [], "exc": "provider_setup:" + type(e).__name__}
         else:
-            o = col_drv.flow(sql, "ansi", metadata=md or None)
+            o = col_drv.flow(sql, "ansi", metadata=md or None, lca=p.get("lca", False))
         o["sql"] = sql
         o["dialect"] = "ansi"
         o["metadata"] = md
@@ -89,6 +89,30 @@ def run(chk):
         if k not in seen and (c["prog"]["known"] or c["prog"]["tk"]):
             seen.add(k)
             cases.append(c)
+    # lateral column alias references (configuration key LATERAL_COLUMN_ALIAS_REFERENCE, on and off): a name spelled like an
+    # earlier select alias denotes that item unless a relation in scope is known to have such a column
+    r = chk.tlc("Col", c02.cfg(chk, "mclca", WithMeta=True, WithLca=True, Schemas={"s"}, TAliases={"x"}, SAliases={"u"}, Kinds={"insert"}, MaxItems=2),
+                "O1 with lateral column alias references", workers=16, timeout=6000)
+    if r.violated:
+        raise core.MachineryError("Col.tla (lateral references) violates %s" % r.violated)
+    r = chk.tlc("Col", c02.cfg(chk, "devlca", WithMeta=True, WithLca=True, Schemas={"s"}, TAliases={"x"}, SAliases={"u"}, Kinds={"insert"}, MaxItems=2,
+                               Known={"D_LCA_IGNORES_DATASET"}, invariants=["MachineFlowExact"]), "expected-fail D_LCA_IGNORES_DATASET",
+                workers=16, expect_violation=True, coverage=False)
+    chk.self_test("spec finds D_LCA_IGNORES_DATASET", bool(r.violated), ",".join(r.violated))
+    gl = chk.tlc("Col", c02.cfg(chk, "genlca", Emit=True, WithMeta=True, WithLca=True, WithLiteral=True, MaxRels=2, MaxItems=3, MaxRefs=2, Schemas={"s"},
+                                TAliases={"x"}, SAliases={"u"}, Kinds={"insert", "insert_cols", "ctas"}, invariants=["EmitCase"]),
+                 "generate: simulated programs with lateral column alias references", workers=1, coverage=False,
+                 simulate="num=%d" % (30000 if quick else 400000), depth=12, seed=chk.seed, timeout=6000)
+    n_lca = 0
+    for c in gl.cases("CASE"):
+        k = str(c["prog"])
+        if k not in seen and any(x["r"] == 7 for it in c["prog"]["items"] for x in it["refs"]):
+            seen.add(k)
+            cases.append(c)
+            n_lca += 1
+            if n_lca >= (900 if quick else 30000):
+                break
+    chk.cov["programs_with_lateral_references"] = n_lca
     jobs = []
     for i, c in enumerate(cases):
         jobs.append({"prog": c["prog"], "flow": c["flow"], "provider": "sqlalchemy" if i % 3 == 0 else "dict",
@@ -107,7 +131,9 @@ def run(chk):
         # knowledge erased: same statement, no provider
         pj = copy.deepcopy(j)
         pj["prog"]["known"] = []
-        if not pj["prog"]["tk"]:
+        lat = any(x["r"] == 7 for it in pj["prog"]["items"] for x in it["refs"])
+        # (a lateral name over a single derived table is valid only while it IS lateral: erasing the knowledge erases the provider)
+        if not pj["prog"]["tk"] and not (lat and len(pj["prog"]["rels"]) == 1 and pj["prog"]["rels"][0]["k"] == "sub"):
             all_jobs.append(pj)
             all_obs.append(b)
     verdicts, keep = c02.decide(chk, all_jobs, all_obs, "meta")
@@ -131,6 +157,8 @@ def run(chk):
                        "every assignment known/unknown of the tables in scope and of the INSERT target (+ %d simulated), each analysed with the "
                        "dict provider or SQLAlchemy on in-memory sqlite holding the same knowledge, and again without any provider (= the "
                        "program with the knowledge erased); table lineage with and without metadata compared in the same trace. "
+                       "programs with lateral column alias references (a name spelled like an earlier select alias; key on / off, provider given / "
+                       "not given, the name known / not known as a column of a relation in scope) run inside a scope that sets the key. "
                        "non-trivial = some table or the target is known." % (n_exh, len(cases) - n_exh))
     chk.assumptions += ["metadata knowledge: s.a has (c, d), s.b has (c, e), the target has as many columns t1.. as the statement has items",
                         "only schema-qualified tables are given metadata (the statement's quantifier)"]
